@@ -109,6 +109,10 @@ def _evaluate(case):
                 except CaseTimeout:
                     raise
                 except Exception as e:  # noqa: BLE001
+                    if kind == "delayed_nodiv" or not head.known_divisions:
+                        # the divisions were withheld at the cut on purpose: operations that align on labels refuse (or fail) when
+                        # they are planned / executed on unknown divisions; raising is decided by the cut kinds that carry divisions
+                        continue
                     viols.append({"kind": f"cut_result_raises:{kind}:{exc_kind(e)}", "detail": f"cut after {ops[:k]} then {ops[k:]}: {short(e)}"})
                     continue
                 # the partition structure the continued plan reports must be truthful (divisions sorted, partitions inside them)
@@ -126,10 +130,16 @@ def _evaluate(case):
                             pass
                 if walker._names(tail._meta) != walker._names(q._meta):
                     viols.append({"kind": f"final_schema:{kind}", "detail": f"cut at {k}: {walker._names(tail._meta)} != {walker._names(q._meta)}"})
-                psens_later = any(("psens" in O.OPS[o].tags) or O.OPS[o].name in ("head3", "tail3", "loc_slice") for o in ops[k:])
+                # after a cut WITHOUT divisions, operations whose value depends on the partitioning or that align their operands on
+                # labels (lsens: with unknown divisions partitions are paired by position) are not value-compared
+                psens_later = any(("psens" in O.OPS[o].tags) or O.OPS[o].lsens or O.OPS[o].name in ("head3", "tail3", "loc_slice") for o in ops[k:])
                 if typ.defined and htyp.defined and not (kind == "delayed_nodiv" and psens_later):
                     r = compare(base, res, ordered=typ.ordered, labelled=typ.labelled)
-                    if r:
+                    if r and kind in ("delayed", "delayed_prefix", "delayed_nodiv", "legacy") and not compare(_objects_as_strings(base), _objects_as_strings(res), ordered=typ.ordered, labelled=typ.labelled):
+                        # the only difference: values of object-dtype columns (booleans / numbers next to missing values or strings) came back
+                        # as strings - classified by this signature (KF-object-columns-stringified-at-import)
+                        viols.append({"kind": f"final_result:{kind}:object_values_become_strings", "detail": f"cut after {ops[:k]} ({kind}) then {ops[k:]}: {r}"})
+                    elif r:
                         viols.append({"kind": f"final_result:{kind}:{r.split(' ')[0]}", "detail": f"cut after {ops[:k]} ({kind}) then {ops[k:]}: {r}"})
                 # graph of the continued program (key aliasing of imported graphs)
                 try:
@@ -146,6 +156,30 @@ def _evaluate(case):
     for v in viols:
         uniq.setdefault(v["kind"], v)
     return {"status": "viol" if uniq else "ok", "viols": list(uniq.values()), "info": info}
+
+
+def _objects_as_strings(obj):
+    """Non-null values of object / string columns (and of an object / string series or index) as str."""
+    import pandas as pd
+
+    def conv(s):
+        if str(s.dtype) in ("object", "str", "string") or "string" in str(s.dtype):
+            return s.map(lambda v: v if v is None or (isinstance(v, float) and v != v) or v is pd.NA else str(v)).astype("object")
+        return s
+
+    try:
+        if isinstance(obj, pd.DataFrame):
+            out = obj.copy()
+            for i in range(out.shape[1]):
+                out.isetitem(i, conv(out.iloc[:, i]))
+            return out
+        if isinstance(obj, pd.Series):
+            return conv(obj)
+        if isinstance(obj, pd.Index):
+            return pd.Index(conv(obj.to_series()).values, name=obj.name)
+    except Exception:  # noqa: BLE001
+        pass
+    return obj
 
 
 def key(case):
